@@ -200,7 +200,7 @@ def tolerance(scale, epsrel=EPSREL, floor=0.0):
     return CTOL * (epsrel + floor) * (1.0 + scale)
 
 
-def run_commuting(c, bath=None):
+def run_commuting(c, bath=None, sysm=None):
     """c: dict(sd, dt, model, rot, mem=(label,dkmax,tcut_units,add_units), unique, method).  Returns a result dict."""
     sd, dt = c["sd"], c["dt"]
     label, dkmax, tcut_u, add_u = c["mem"]
@@ -231,7 +231,7 @@ def run_commuting(c, bath=None):
         return res
     try:
         prm = C.make_params(dt, epsrel, dkmax=dkmax, tcut=None if tcut_u is None else tcut_value(tcut_u, dt), add=tau)
-        sysm = oq.System(h)
+        sysm = oq.System(h) if sysm is None else sysm
         if c["method"] == "tempo":
             times, states = C.run_tempo(sysm, bath, prm, rho0, 0.0, n, c["unique"])
         else:
@@ -250,6 +250,32 @@ def run_commuting(c, bath=None):
     res["phys"] = C.physicality(states)
     res["nstates"] = n + 1
     return res
+
+
+def convergence_case(args):
+    """a convergence check as users do it: ONE System and ONE Bath object, computations at several time steps one after
+    the other (every order of the steps, both methods alternating); each run is compared with the analytic solution."""
+    mid, rot, order = args
+    sd = C.sd_spec("power", 0.3, 1.0, WC, "exponential", 1.0)
+    h, o, _ = model(mid, rot)
+    bath = oq.Bath(o, C.lib_correlations(sd))
+    sysm = oq.System(h)
+    out = []
+    for i, dt in enumerate(order):
+        for method in ("tempo", "pt"):
+            c = {"fam": "commuting", "sd": sd, "dt": dt, "model": mid, "rot": rot, "mem": ["full", None, None, None],
+                 "unique": False, "method": method, "epsrel": EPSREL, "n": 4}
+            r = run_commuting(c, bath=bath, sysm=sysm)
+            bad = None
+            if "exc" in r:
+                bad = f"exception:{r['exc'][1]}"
+            elif r["dev"] > r["tol"]:
+                bad = "state-mismatch"
+            if bad:
+                out.append((f"convergence|{method}|time-step-{'first' if i == 0 else 'after-other-steps'}|{bad}",
+                            f"model {mid} rot={rot}: shared System/Bath run at dt={list(order[:i + 1])}: {method} at dt={dt} "
+                            f"deviates from the analytic solution by {r.get('dev')}"))
+    return {"bad": out, "n": 2 * len(order)}
 
 
 def canonical_key(c, r):
@@ -384,6 +410,12 @@ def run(tier, seed):
     sres = pmap(shard_worker, shs, chunksize=1, seed=seed)
     fcs = fm_cases(tier)
     fres = pmap(run_modes, fcs, chunksize=1, seed=seed)
+    cjobs = [(mid, rot, order) for (mid, rot) in (("d2", False), ("d3deg", True), ("d3", False))
+             for order in itertools.permutations((0.1, 0.2, 0.37))]
+    cres = pmap(convergence_case, cjobs, chunksize=1, seed=seed)
+    for j, r in zip(cjobs, cres):
+        for cls, what in r["bad"]:
+            rep.add(Violation(cls, what, {"fam": "convergence", "args": [j[0], j[1], list(j[2])]}))
 
     keys = set()
     evaluations = 0
@@ -478,7 +510,8 @@ def run(tier, seed):
                     "runs": fres[0]["runs"][:2]})
 
     rep.coverage = {
-        "evaluations": evaluations,
+        "evaluations": evaluations + sum(r["n"] for r in cres),
+        "convergence_sequences": {"models": 3, "orders_of_time_steps": 6, "runs": sum(r["n"] for r in cres)},
         "distinct_nontrivial": len(keys),
         "trivial_or_inactive": trivial,
         "rule": "commuting family: shards = (spectral density, dt, (H_S,O) model, basis) each running the listed memory settings "
@@ -522,6 +555,10 @@ def run(tier, seed):
 
 
 def replay(rp):
+    if rp.get("fam") == "convergence":
+        a = rp["args"]
+        r = convergence_case((a[0], a[1], tuple(a[2])))
+        return {"obs": [b[0] for b in r["bad"]], "violation": r["bad"][0][0] if r["bad"] else None}
     c = dict(rp)
     if c.get("fam") == "modes":
         r = run_modes(c)
